@@ -36,8 +36,19 @@ func c04Pin(name string) string {
 // controller identifier and keys. Every value the accessory emits verifies under the
 // specification's algorithms and constants.
 func Harness_C04_q_pair_verify_talk() {
+	// Earlier in the life of this process an accessory of the same name may have run with a
+	// different setup code (the code was changed, or another instance was created): nothing
+	// of it may leak into this accessory's pairing.
+	if verif.Choice("earlier-accessory", 2) == 1 {
+		verif.Fact("earlier-accessory", "same name, other setup code")
+		w0 := eeNewWorld()
+		w0.dev.pin = "111-22-333"
+		w0.connect("10.0.0.7:5000")
+		eePost(w0.setup, "/pair-setup", "10.0.0.7:5000", eeTLV(pair.TagPairingMethod, byte(0), pair.TagSequence, byte(1)))
+	}
 	w := eeNewWorld()
 	w.dev.pin = c04Pin("pin")
+	verif.Assume(w.dev.pin != "111-22-333")
 	conn, sess := w.connect("10.0.0.2:5000")
 	remote := "10.0.0.2:5000"
 	idLen := []int{1, 36}[verif.Choice("idlen", 2)]
